@@ -119,6 +119,12 @@ impl<'a> Machine<'a> {
                         let (arity, locals) = match &self.p.consts[mi] { Const::Method { arity, locals, .. } => (*arity as usize, *locals as usize), _ => return unspec("ill-formed member") };
                         if arity == 0 { return unspec("ill-formed: member method without a receiver slot") }
                         if args.len() != arity - 1 { return fail("method arity") }
+                        // U4: which object slot 0 holds when the method was found in an ancestor is not specified
+                        if hops > 0 {
+                            if let Const::Method { code, .. } = &self.p.consts[mi] {
+                                if code.iter().any(|i| matches!(i, Ins::GetLocal(0) | Ins::SetLocal(0))) { return unspec("U4 slot 0 of a method found in an ancestor") }
+                            }
+                        }
                         let mut l = vec![cur];
                         l.extend(args);
                         l.extend(std::iter::repeat(V::Null).take(locals));
